@@ -14,6 +14,8 @@
 (*   ST a v      byte store                        MOV BYTE [abs32], imm8            *)
 (*   ST4 a v     4-byte store of v,v+1,v+2,v+3     MOV DWORD [abs32], imm32          *)
 (*   LD a        low byte of acc := mem[a]         MOV AL, [abs32]                   *)
+(*   PUM a       push the dword at a                PUSH DWORD [abs32]  (a load AND a store) *)
+(*   INCM a      mem[a] := mem[a] + 1 (byte)        INC BYTE [abs32]    (read-modify-write)  *)
 (*   PATCH s v   store v over the immediate of the instruction in slot s (code)      *)
 (*   PATCHS s    the same with a string store (STOSB, several IR blocks) of acc's low byte *)
 (*                                                                                 *)
@@ -34,11 +36,12 @@ Hash(acc, i) == IF i < 128 THEN LET l == 3 * acc[2] + i IN <<(3 * acc[1] + (l \d
 PushVal(i) == IF i < 128 THEN <<0, i>> ELSE <<65535, 65280 + i>>        \* pushed words as <<hi, lo>> 16-bit limbs
 SetLow(acc, b) == <<acc[1], (acc[2] - (acc[2] % 256)) + b>>
 
-(* data memory: pages are records [base, size, perm] with perm in {"rw", "ro"}; dm maps written addresses to bytes, *)
+(* data memory: pages are records [base, size, perm] with perm in {"rw", "ro", "wo"}; dm maps written addresses to bytes, *)
 (* unwritten mapped bytes read as (address mod 251)                                                               *)
 PageOf(pages, a) == {i \in 1..Len(pages) : pages[i].base <= a /\ a < pages[i].base + pages[i].size}
-CanRead(pages, a) == PageOf(pages, a) # {}
-CanWrite(pages, a) == \E i \in PageOf(pages, a) : pages[i].perm = "rw"
+Mapped(pages, a) == PageOf(pages, a) # {}
+CanRead(pages, a) == \E i \in PageOf(pages, a) : pages[i].perm \in {"rw", "ro"}
+CanWrite(pages, a) == \E i \in PageOf(pages, a) : pages[i].perm \in {"rw", "wo"}
 RdByte(st, a) == IF a \in DOMAIN st.dm THEN st.dm[a] ELSE a % 251
 WrBytes(dm, a, bs) == [x \in DOMAIN dm \cup {a + k - 1 : k \in 1..Len(bs)} |->
                          IF x >= a /\ x < a + Len(bs) THEN bs[x - a + 1] ELSE dm[x]]
@@ -60,6 +63,14 @@ Step(st) ==
                         ELSE [st EXCEPT !.fault = TRUE]
     [] ins.k = "LD" -> IF CanRead(st.pages, ins.a) THEN [st EXCEPT !.acc = SetLow(st.acc, RdByte(st, ins.a)), !.pc = nxt]
                        ELSE [st EXCEPT !.fault = TRUE]
+    (* a load and a store in one instruction: nothing is stored when the load faults *)
+    [] ins.k = "PUM" -> IF st.stackok /\ \A k \in 0..3 : CanRead(st.pages, ins.a + k)
+                        THEN [st EXCEPT !.stack = Append(st.stack, <<RdByte(st, ins.a + 3) * 256 + RdByte(st, ins.a + 2),
+                                                                     RdByte(st, ins.a + 1) * 256 + RdByte(st, ins.a)>>), !.pc = nxt]
+                        ELSE [st EXCEPT !.fault = TRUE]
+    [] ins.k = "INCM" -> IF CanRead(st.pages, ins.a) /\ CanWrite(st.pages, ins.a)
+                         THEN [st EXCEPT !.dm = WrBytes(st.dm, ins.a, <<(RdByte(st, ins.a) + 1) % 256>>), !.pc = nxt]
+                         ELSE [st EXCEPT !.fault = TRUE]
     [] ins.k = "PATCH" -> [st EXCEPT !.prog[ins.s + 1].i = ins.v, !.pc = nxt]
     (* STOSB with the string pointer on the immediate of slot s: stores the low byte of acc there (the pointer then moves on: *)
     (* one execution per run)                                                                                               *)
@@ -69,6 +80,8 @@ Step(st) ==
 Touch(ins) == CASE ins.k = "ST" -> [r |-> {}, w |-> {ins.a}]
                 [] ins.k = "ST4" -> [r |-> {}, w |-> ins.a..(ins.a + 3)]
                 [] ins.k = "LD" -> [r |-> {ins.a}, w |-> {}]
+                [] ins.k = "PUM" -> [r |-> ins.a..(ins.a + 3), w |-> {}]
+                [] ins.k = "INCM" -> [r |-> {ins.a}, w |-> {ins.a}]
                 [] OTHER -> [r |-> {}, w |-> {}]
 HitsMbp(st, ins) == \E i \in 1..Len(st.mbps) :
                       LET b == st.mbps[i] rng == b.a..(b.a + b.n - 1) IN
@@ -109,7 +122,7 @@ ApplyCmd(st, c, it) ==
                                    !.fault = FALSE, !.stop = "none", !.pc = 0]
 
 (* what is compared after each run / cont: obs is the record the harness read from the real jitter *)
-Window(st, addrs) == [i \in 1..Len(addrs) |-> IF CanRead(st.pages, addrs[i]) THEN RdByte(st, addrs[i]) ELSE -1]
+Window(st, addrs) == [i \in 1..Len(addrs) |-> IF Mapped(st.pages, addrs[i]) THEN RdByte(st, addrs[i]) ELSE -1]
 Differs(st, o, it) ==
   IF o.crashed # "" THEN "backend-raised:" \o o.crashed
   ELSE IF st.stop = "fuel" THEN "ok"                                 \* the reference did not finish within the fuel: nothing compared
@@ -119,6 +132,7 @@ Differs(st, o, it) ==
   ELSE IF o.cnt # st.cnt THEN "cnt"
   ELSE IF o.stack # st.stack THEN "stack"
   ELSE IF o.window # Window(st, it.window) THEN "memory"
+  ELSE IF o.below # "untouched" THEN "memory-below-the-stack-pointer"      \* no instruction of this machine writes there
   ELSE IF o.hits # st.hits THEN "breakpoint-hits"
   ELSE IF o.fault # st.fault THEN "fault-flag"
   ELSE "ok"
